@@ -283,6 +283,17 @@ func (engine) Run(ci any) lib.Result {
 			}
 		}
 	}
+	if c.FE == "chain" && okCompileAt >= 0 {
+		// an Append* cannot return an error: the refusal is reported by the next Compile
+		touched := false
+		for i := okCompileAt + 1; i < len(c.Calls); i++ {
+			if isAdd(c.Calls[i].Op) {
+				touched = true
+			} else if touched && first.obs[i].K == "ok" {
+				fail("modified-after-compile", fmt.Sprintf("Compile at %d succeeded although the chain was appended to after the Compile at %d", i, okCompileAt))
+			}
+		}
+	}
 	if first.recomp != "" {
 		fail("modified-after-compile", first.recomp)
 	}
